@@ -500,6 +500,19 @@ func bxvLangCases(fails *[]bxvFailure, stats map[string]int, samples *[]string) 
 	par(bxvCoreTokens, coreMax)
 	wg.Wait()
 	_ = rec
+	// boundary runes in every lexical position: one representative of each
+	// Unicode category the grammar's classes mention or exclude, the ends of
+	// its ASCII ranges and their neighbours, the characters utf8/unicode/strings
+	// treat specially, and undecodable bytes - placed where an identifier, a
+	// path segment, an index, a literal, white space or a keyword is expected
+	for _, x := range []string{"\x00", "\x08", "\t", "\n", "\v", "\f", "\r", " ", "\x7f", "\u0080", "\u0085", "\u00a0", "!", "\"", "#", "$", "%", "&", "'", "(", ")", "*", "+", ",", "-", ".", "/", "0", "9", ":", ";", "<", "=", ">", "?", "@",
+		"A", "Z", "[", "\\", "]", "^", "_", "`", "a", "z", "{", "|", "}", "~", "é", "ß", "Ω", "Ж", "中", "\U0001d4b3", "ǅ", "ʰ", "٣", "Ⅳ", "²", "½", "\u0301", "‿", "€", "\u200b", "\u2028", "\ufeff", "\ufffd",
+		"\U0001F600", "\U0010ffff", "\xff", "\xc3\x28", "\xed\xa0\x80", "\xc0\x80"} {
+		for _, tpl := range []string{"a%s == 1", "%sa == 1", "a.b%s == 1", "a.%s == 1", "a.0%s == 1", "a[\"%s\"] == 1", "a[`%s`] == 1", "\"/a%s\" == 1", "\"/%s\" == 1", "\"/a/%s/b\" == 1", "a == %s", "a == b%s", "a == \"%s\"", "a == \"x%sy\"",
+			"a == `%s`", "a ==%s1", "a == 1%s", "a == 1 %s", "a == 1%s and b == 2", "%s", "a in%s b", "a%sin b", "any%s a as x { x == 1 }", "any a as x%s { x == 1 }", "a is empty%s", "a is%sempty", "(%s a == 1)", "a == 1.%s5", "a == -%s1", "not%s a == 1", "a == 1 and%s b == 2"} {
+			try(fmt.Sprintf(tpl, x))
+		}
+	}
 	// complete statements, including the error productions and awkward layouts
 	for _, s := range []string{
 		"a == 1", "a==1", " a == 1 ", "(a == 1)", "( a == 1 )", "((a == 1))", "(a == 1", "a == 1)", "a == 1 and b == 2 or c == 3", "a == 1 or b == 2 and c == 3", "not a == 1 and b == 2",
